@@ -405,11 +405,14 @@ theorem compile_report_ok {K : Type} [ExactField K] {m : Model (Ext K)} {tol : E
 /-- a `MissingFiniteBounds` error of the whole compiler names, among the source variables, only variables whose
 range AFTER bound inference (`apply_to_domain`'s input, `an.variableBounds`) is not finite. -/
 theorem compile_missing_bounds_blames_unbounded {m : Model α} {tol : α} {maxSteps : Nat} {vs : List String}
+    (hchk : ∃ r, collapseCheckAll m (Compile.scratchState m tol maxSteps) = .ok r)
     (h : Compile.linearize m tol maxSteps = .error (.missingFiniteBounds vs)) :
     WF.sortedStrict vs = true ∧ ∃ an : Analyzer α, ∀ x ∈ vs, x ∈ m.domain.map (·.name) →
       ¬ (Arith.isFinite (varBounds (Compile.toLinBounds an.variableBounds) x).lower = true ∧
          Arith.isFinite (varBounds (Compile.toLinBounds an.variableBounds) x).upper = true) := by
-  rcases compile_error_linearizeWith h with h | ⟨an, hlin⟩
+  -- the error does not come from the up-front collapse check (`hchk`: that check went through)
+  rcases compile_error_linearizeWith h with h | h | ⟨an, hlin⟩
+  · obtain ⟨r, hr⟩ := hchk; rw [hr] at h; cases h
   · cases h
   · refine ⟨(missing_bounds_error_global hlin).1, an, ?_⟩
     intro x hx hd
